@@ -242,7 +242,7 @@ def run_lanes(check, tier, seed, runs, digests=False, lanes=LANES, procs=None, t
     hs = getattr(check, "HASHSEEDS", [0])
     if tier == "thorough":
         hs = getattr(check, "HASHSEEDS_THOROUGH", hs)
-    procs = procs or min(lanes, os.cpu_count() or 4)
+    procs = procs or int(os.environ.get("VERIF_PROCS", 0)) or check.TIERS[tier].get("procs") or min(lanes, os.cpu_count() or 4)
     timeout = timeout or check.TIERS[tier].get("timeout", 3000)
     pending = list(range(lanes))
     running = {}
@@ -259,7 +259,7 @@ def run_lanes(check, tier, seed, runs, digests=False, lanes=LANES, procs=None, t
                    "--lane-timeout", str(check.TIERS[tier].get("lane_timeout", 600))]
             if digests:
                 cmd.append("--digests")
-            env = B.controlled_env(hs[l % len(hs)])
+            env = B.controlled_env(hs[l % len(hs)], {"VERIF_TIER_NOW": tier})
             errf = open(os.path.join(rundir, f"lane{l}.err"), "w")
             p = subprocess.Popen(cmd, env=env, stdout=errf, stderr=errf, cwd=B.VERIF)
             running[l] = (p, out, errf)
@@ -509,6 +509,8 @@ def _search(check, workload, knobs0, signature, base, tries):
                 dict(knobs0, strategy="rw", p=0.5),
                 dict(knobs0, strategy="pct", d=3, est=knobs0.get("est", 150))]
     hits = 0
+    if getattr(check, "DETERMINISTIC_RUN", False):
+        tries = 1            # no schedule to search: the workload alone decides the run
     for j in range(tries):
         kn = variants[j % len(variants)]
         ss = H("min", base, j) >> 1
